@@ -98,6 +98,9 @@ func NewParser(grammar *Grammar) (*Parser, error) {
 
 // Parse attempts to run the parser for the given input.
 func (p *Parser) Parse(llk *LLk, st *semantic.Statement) error {
+	// Whatever the outcome, let the lexer goroutine finish: it blocks on its
+	// channel for as long as tokens are left unread.
+	defer llk.drain()
 	b, err := p.consume(llk, st, "START")
 	if err != nil {
 		return err
